@@ -64,6 +64,12 @@ def build_contract():
         "alias_b": call_stored + _assert([("PUSH", 0x40), "MLOAD", ("PUSH", 2), "EQ", "ISZERO"], "ab") + ["STOP"],
     }
     test_fns = [Fn("setUpSymbolic(address)", setup)] + [Fn(f"check_{k}()", v) for k, v in fns.items()]
+    # configuration: check_annotated() carries a function annotation; check_loopy(n) counts to n and asserts the count is
+    # below 3 - with the default --loop 2 only n <= 2 is explored (PASS with a bound warning), with --loop 4 it fails
+    test_fns.append(Fn("check_annotated()", ["STOP"], devdoc="--loop 4"))
+    loopy = [("PUSH", 0), ("LABEL", "lh"), ("PUSH", 4), "CALLDATALOAD", "DUP2", "LT", ("PUSHL", "lb"), "JUMPI",
+             ("PUSH", 3), "SWAP1", "LT", ("PUSHL", "lok"), "JUMPI"] + panic(1) + [("LABEL", "lok"), "STOP", ("LABEL", "lb"), ("PUSH", 1), "ADD", ("PUSHL", "lh"), "JUMP"]
+    test_fns.append(Fn("check_loopy(uint256)", loopy))
     test_fns.append(Fn("invariant_a()", _assert(s1_is_1, "ia") + ["STOP"]))
     test_fns.append(Fn("invariant_b()", _assert(s1_is_1, "ib1") + _assert(s0_is_7, "ib0") + ["STOP"]))
     c = Contract("IsoT", test_fns, data=[("MARK", "tinit"), ("RAW", tinit), ("MARK", "tiny"), ("RAW", tiny), ("MARK", "c1"), ("RAW", c1), ("MARK", "c2"), ("RAW", c2)])
@@ -71,6 +77,8 @@ def build_contract():
 
 
 def sig_of(name: str) -> str:
+    if name == "loopy":
+        return "check_loopy(uint256)"
     return f"invariant_{name[4:]}()" if name.startswith("inv_") else f"check_{name}()"
 
 
@@ -108,7 +116,7 @@ def run(chk: Check, tier: str):
         # histories in which the second test reads what the first one writes are always replayed
         kinds = ["storage", "transient", "balance", "code", "time"]
         conflicts = {(f"write_{k}", f"read_{k}") for k in kinds} | {(f"write_{k}", f"write_{k}") for k in kinds} | \
-                    {("alias_a", "alias_b"), ("alias_b", "alias_b"), ("alias_b", "alias_a"), ("inv_a", "inv_b"), ("inv_b", "inv_a"), ("write_storage", "inv_b")}
+                    {("annotated", "loopy"), ("loopy", "annotated"), ("loopy", "loopy"), ("alias_a", "alias_b"), ("alias_b", "alias_b"), ("alias_b", "alias_a"), ("inv_a", "inv_b"), ("inv_b", "inv_a"), ("write_storage", "inv_b")}
         must = [h for h in hists if len(h) == 2 and (h[0]["test"], h[1]["test"]) in conflicts]
         if len(must) != len(conflicts):
             raise MachineryError(f"TestRun.tla did not enumerate every conflicting pair: {len(must)} of {len(conflicts)}")
@@ -160,8 +168,8 @@ def run(chk: Check, tier: str):
     finally:
         cleanup(work)
     chk.cov["rule"] = (
-        "all orders with repetition of <= 2 (quick: all of length 1, every writer-then-reader pair, 30 sampled others of length 2) / <= 3 (thorough) of 14 tests "
+        "all orders with repetition of <= 2 (quick: all of length 1, every writer-then-reader pair, 30 sampled others of length 2) / <= 3 (thorough) of 16 tests "
         "(writers and readers of storage, transient storage, a balance, created code, block timestamp; two tests calling the symbolic address "
-        "chosen by setUpSymbolic(address) (the per-path alias cache); two invariant tests sharing the frontier cache), enumerated by TLC from TestRun.tla and replayed through one run_contract call each; "
+        "chosen by setUpSymbolic(address) (the per-path alias cache); a test with a function-level `@custom:halmos --loop 4` annotation and a test whose verdict depends on the loop bound; two invariant tests sharing the frontier cache), enumerated by TLC from TestRun.tla and replayed through one run_contract call each; "
         "per test the exit code must equal the model's and the normalised result must be the same in every history"
     )
